@@ -349,6 +349,16 @@ func truncScenario(c *Ctx, sh truncShape) {
 				c.Violate("C07", "balance-changed-by-second-truncation", fmt.Sprintf("balance of %s was %s before and %s after the second truncation", w.A(addr), bv, a2[addr]), info)
 			}
 		}
+		// the saver was swept to exactly zero before this truncation: whatever the checkpoint says now, it
+		// cannot spend those funds once more (C01 / C02: the overdraw oracles judge the next two proposals)
+		for k := 0; k < 2; k++ {
+			t := w.NewTrx(w.wallets[4], w.wallets[2].Address(), spice.Melange{Currency: 10 - uint64(4*k)}, nil)
+			w.Propose(a, &t)
+			t2 := w.NewTrx(w.wallets[0], w.wallets[1].Address(), spice.Melange{SupplementaryCurrency: 3}, nil)
+			w.Propose(a, &t2)
+		}
+		w.balancesOf(a)
+		w.Conservation(a, nil)
 		c.Count("trunc.second")
 	}
 	c.Distinct("trunc-" + sh.name)
